@@ -37,7 +37,7 @@ def own_cases(tier, rng):
 def gen(tier, rng):
     for c in own_cases(tier, rng):
         yield c
-    per = 2500 if tier == "quick" else 25000
+    per = 1200 if tier == "quick" else 12000
     for p in vlib.ACTIVE:
         if p in ("C10", "C00"):
             continue
@@ -64,3 +64,11 @@ def distribution(lines):
         k = "C%02d" % int(c[1:].split()[0])
         d[k] = d.get(k, 0) + 1
     return {"cases_per_source_property": d}
+
+
+def relevant(d):
+    """C10 is about out-of-bounds unchecked accesses and broken representation invariants: of
+    the replayed workloads of other properties only a fired hook `(-9)` or a dead child process
+    (`abort`) counts here — a value disagreement on another property's case is that property's
+    business (and is reported by its own check).  C10's own panic-injection cases count fully."""
+    return d.case.startswith("(10 ") or d.impl.startswith("(-9)") or d.impl.strip() == "abort"
